@@ -46,6 +46,19 @@ def marked_flow(scope):
     return None
 
 
+def alias_loc(top, alias, name, start):
+    # type: (SourceScope, ast.alias, str, loc_t) -> loc_t
+    """Position of the name an import alias binds: an alias ends with its
+    as-name and starts with the (first component of the) imported name"""
+    if getattr(alias, 'end_col_offset', None) is None:  # no positions before 3.10
+        return top.find_id_loc(name, start)
+
+    if alias.asname:
+        return alias.end_lineno, alias.end_col_offset - len(alias.asname)
+
+    return np(alias)
+
+
 class extract_visitor(NodeVisitor):
     def process(self, tree, flow):
         # type: (ast.AST, Flow) -> Flow
@@ -223,7 +236,7 @@ class extract_visitor(NodeVisitor):
                 iname = name
                 self.top._imports.append(a.name)
 
-            declared_at = self.top.find_id_loc(name, start)
+            declared_at = alias_loc(self.top, a, name, start)
             self.flow.add_name(ImportedName(name, loc, declared_at, iname, None,
                                             qualified=qualified))
 
@@ -233,7 +246,7 @@ class extract_visitor(NodeVisitor):
         start = np(node)
         for a in node.names:
             name = a.asname or a.name
-            declared_at = self.top.find_id_loc(name, start)
+            declared_at = alias_loc(self.top, a, name, start)
             module = '.' * node.level + (node.module or '')
             if name == '*':
                 self.top._star_imports.append((loc, declared_at, module, self.flow))
